@@ -14,7 +14,7 @@ RULE = ('sequences of complete file sections (kind x ending: modified/added/dele
 ASSUMPTIONS = ['each section is a complete file diff as git prints it (starts with its own "diff --git" line)']
 CHUNK = 4
 
-KINDS = gen.SECTION_KINDS + ['submodule_short', 'submodule_log', 'binary_noindex', 'combined_binary', 'combined', 'combined_conflict', 'combined_conflict_open', 'submodule_deleted']
+KINDS = gen.SECTION_KINDS + ['submodule_short', 'submodule_log', 'binary_noindex', 'combined_binary', 'combined', 'combined_conflict', 'combined_conflict_open', 'submodule_deleted', 'bare_hunk_header']
 ENDINGS = [' ', '-', '+', '\\']
 
 MODES = {
@@ -66,6 +66,11 @@ def make_section_lines(rng, shape, idx, same=None):
         name = 'subdel%d' % idx
         return ['diff --git a/%s b/%s' % (name, name), 'deleted file mode 160000', 'index 1234567..0000000', '--- a/' + name, '+++ /dev/null',
                 '@@ -1 +0,0 @@', '-Subproject commit ' + 'c' * 40]
+    if kind == 'bare_hunk_header':
+        # a section that ends with a hunk header and nothing after it (a truncated diff): the header still belongs to it
+        name = 'trunc%d/file.rs' % idx
+        return ['diff --git a/%s b/%s' % (name, name), 'index 1111111..2222222 100644', '--- a/' + name, '+++ b/' + name, '@@ -1,2 +1,2 @@ fn first()', ' context',
+                '-' + gen.rand_text(rng, 20, allow_empty=False), '+' + gen.rand_text(rng, 20, allow_empty=False), '@@ -40,3 +40,3 @@ fn only_the_header_is_left()']
     if kind == 'submodule_log':
         name = 'sublog%d' % idx
         return ['Submodule %s 1234567..89abcde:' % name, '  > commit message one', '  > commit message two']
@@ -130,7 +135,7 @@ def plan(ctx):
                           rng.choice(modes), 3))
     else:
         rng.shuffle(pairs)
-        for i, (a, b) in enumerate(pairs[:ctx.n(900, 0)]):
+        for i, (a, b) in enumerate(pairs):     # (every ordered pair of shapes, one mode each; the thorough tier runs every pair in every mode)
             items.append(('seq', engine.stable_hash((ctx.seed, 'pair', a, b)), (a, b), modes[i % len(modes)], 3))
         for i in range(ctx.n(250, 0)):
             n = rng.randint(3, 6)
